@@ -153,6 +153,10 @@ func checkSeq(c *hl.Ctx, part string, seq []*ref.Tree, eval func([]*ref.Tree) *f
 		key = part + "/" + feat
 		c.Add(part+"_strict_array_family_failures", 1)
 	}
+	if c.HasViolation(key) {
+		c.Violation(key, "", nil) // counted; the first (smallest) case is the one kept
+		return false
+	}
 	c.Violation(key, f.What, treeCase{Part: part, Seq: cloneSeq(seq)})
 	return false
 }
@@ -339,7 +343,7 @@ func run(c *hl.Ctx) {
 	keys4, keys2 := ref.DefaultKeys(), []string{"a", ""}
 	var profs []profile
 	if c.Quick() {
-		profs = []profile{{Name: "full", Nodes: 4, Hinted: 4, Keys: keys4, leaves: full}, {Name: "small", Nodes: 6, Hinted: 6, Keys: keys2, leaves: small}}
+		profs = []profile{{Name: "full", Nodes: 4, Hinted: 4, Keys: keys4, leaves: full}, {Name: "small", Nodes: 6, Hinted: 5, Keys: keys2, leaves: small}}
 	} else {
 		// count-hint variants (x3 per ECMA array) up to Hinted nodes, the honest hint only beyond
 		profs = []profile{{Name: "full", Nodes: 5, Hinted: 4, Keys: keys4, leaves: full}, {Name: "small", Nodes: 7, Hinted: 6, Keys: keys2, leaves: small}}
